@@ -37,6 +37,11 @@ def run_program_case(case, prop: str, focus_kinds=None):
             break
         if isinstance(res, dict) and "site" in res:
             s = res["site"]
+            if st["k"] == "op":
+                labels.append(f"op:{s.get('entry')}/{s.get('storage')}/{s.get('rep')}")
+                labels.append("optype:" + st["op"]["type"])
+                if i > 0:
+                    labels.append("op-after-earlier-steps")
             if focus_kinds is None or st["k"] in focus_kinds:
                 keyparts.append(tuple(sorted((k, str(v)) for k, v in s.items() if k not in ("cls",))))
             if res.get("outcome") == "rejected":
